@@ -111,6 +111,16 @@ def k_cross(ctx, refs, queries, k):
     else:
         out = ctx.call(db.value.lookup, list(queries))
         S.expect_triplets(ctx, out, exp, "SymdelDB.lookup", "cross")
+        if (len(queries) + k) % 5 == 0:
+            # the progress bar is display only: the answer with progress=True is the same
+            import contextlib
+            import io
+            with contextlib.redirect_stderr(io.StringIO()):
+                out = ctx.call(db.value.lookup, list(queries), progress=True)
+                out2 = ctx.call(nn.symdel, list(refs), max_edits=k, seqs2=list(queries), progress=True)
+            S.expect_triplets(ctx, out, exp, "SymdelDB.lookup", "cross-progress")
+            S.expect_triplets(ctx, out2, exp, "symdel", "cross-progress")
+            ctx.count("progress_bar_lookups")
     ctx.count("invariant_evaluations", _INV["evals"] - before)
     if _INV.get("changes"):
         ctx.count("object_state_changes_observed_by_invariant", _INV.pop("changes"))
@@ -146,6 +156,13 @@ def k_lookupdb(ctx, refs, queries, k):
         ctx.count("lookupdb_radius_changes")
     out = ctx.call(db.value.lookup, list(queries), max_edits=k)
     S.expect_triplets(ctx, out, exp, "LookupDB.lookup", "cross-original-radius-again")
+    if (len(queries) + k) % 5 == 0:
+        import contextlib
+        import io
+        with contextlib.redirect_stderr(io.StringIO()):
+            out = ctx.call(db.value.lookup, list(queries), max_edits=k, progress=True)
+        S.expect_triplets(ctx, out, exp, "LookupDB.lookup", "cross-progress")
+        ctx.count("progress_bar_lookups")
     ctx.count("invariant_evaluations", _INV["evals"] - before)
     if _INV.get("changes"):
         ctx.count("object_state_changes_observed_by_invariant", _INV.pop("changes"))
